@@ -170,6 +170,20 @@ theorem startOp_link {s s' : State} {sp : Spec} (l : Link s)
   all_goals (simp only [Option.some.injEq] at hs; subst hs)
   all_goals exact Link.append l rfl rfl rfl rfl rfl
 
+theorem stepTakePanic_link {s s' : State} {i : Nat} {o : Obj} {add : Bool}
+    (h : s.ops[i]? = some (.take .detach o add)) (l : Link s)
+    (hs : stepTakePanic s i o = some s') : Link s' := by
+  simp only [stepTakePanic, Option.some.injEq] at hs
+  subst hs
+  link_leaf l h
+
+theorem stepRetPanic_link {s s' : State} {i : Nat} {o : Obj}
+    (h : s.ops[i]? = some (.ret .detach o)) (l : Link s)
+    (hs : stepRetPanic s i o = some s') : Link s' := by
+  simp only [stepRetPanic, Option.some.injEq] at hs
+  subst hs
+  link_leaf l h
+
 theorem stepOp_link {s s' : State} {i : Nat} {oc : Outcome} (l : Link s)
     (hs : stepOp s i oc = some s') : Link s' := by
   unfold stepOp at hs
@@ -182,12 +196,18 @@ theorem stepOp_link {s s' : State} {i : Nat} {oc : Outcome} (l : Link s)
       simp only at hs
       split at hs
       · exact stepRet_link h l hs
-      · simp at hs
+      · split at hs
+        · have := retPanic_pc ‹_›; subst this
+          exact stepRetPanic_link h l hs
+        · simp at hs
     | take pc o add =>
       simp only at hs
       split at hs
       · exact stepTake_link h l hs
-      · simp at hs
+      · split at hs
+        · have := takePanic_pc ‹_›; subst this
+          exact stepTakePanic_link h l hs
+        · simp at hs
     | resize n c pc old =>
       simp only at hs
       split at hs
